@@ -201,4 +201,16 @@ PROPS = {
         "assumptions": ["extract/lockfacts.go reports the locks really held (trusted translator; its output is also what the race workloads exercise)",
                         "fields outside the policy are confined to one goroutine at a time by C19's premise (different fids) or written before sharing"],
     },
+    "C06": {
+        "rule": "hostile sessions against the real server (scripted implementation and Ufs on a scratch tree with files, sub-directories and a "
+                "symlink), msize in {24,25,32,64,128,256,1024,8192,70000}, both dialects: structured sequences of 5..40 requests of every "
+                "type (plus unknown and R types) with boundary and random fids/tags/counts/offsets/modes/permissions, names with '/', '..', "
+                "NUL, empty and up to 64 KiB, lying walk counts, stat records with lying sizes, self-flushes, pipelined dependent requests; "
+                "byte-level mutations of a valid 15-request session; raw random bytes; all written in random segments. The server runs in "
+                "the harness's process: a panic in one of its goroutines ends the process and the journal names the session. After every "
+                "session a bystander connection and a fresh one must be served. non-trivial = distinct sessions",
+        "modelled": ["modelled, not verified: only the decoder, the directory window and the framework's request rules carry theorems; nil "
+                     "dereferences, type assertions, the os package and concurrent use of one fid are reached by the sessions only"],
+        "assumptions": ["the same mirrors as C02, C04, C05, C12, C15 (each tied by its own correspondence)"],
+    },
 }
